@@ -278,3 +278,24 @@ Proof.
   split; [apply words_okb_ok; reflexivity|].
   vm_compute. intuition congruence.
 Qed.
+
+(** * widened: build with Of (of.go), walk with NextOne / PrevOne *)
+From Coq Require Import Sorted.
+From Low Require Import Proofs.NextOf.
+
+(** for strictly ascending non-negative positions, the NextOne walk of [Of(ps, n)] returns [ps] and the
+    PrevOne walk returns [rev ps] (any size argument) *)
+Theorem C13_Of_walk : forall ps opt,
+  StronglySorted Z.lt ps -> (forall p, In p ps -> 0 <= p) ->
+  OfWalk ps opt = Some (ps, rev ps).
+Proof. exact OfWalk_exact. Qed.
+Print Assumptions C13_Of_walk.
+
+Example C13_Of_walk_nonvacuous :
+  StronglySorted Z.lt [0; 63; 64; 200] /\
+  OfWalk [0; 63; 64; 200] (Some 130) = Some ([0; 63; 64; 200], [200; 64; 63; 0]) /\
+  Of [0; 63; 64; 200] (Some 130) = Some [2^63 + 1; 1; 0; 256] /\
+  OfWalk [] (Some 70) = Some ([], []).
+Proof.
+  split; [repeat constructor; reflexivity|]. vm_compute. intuition congruence.
+Qed.
